@@ -54,7 +54,7 @@ def model_jobs(ctx, proj_module, scen_defs, cfg_consts, pc_op, thread_names, lab
         steps = []
         for (u, t, v) in p:
             pcu = nodes[u]["pc"][t]
-            st = {"t": t, "post": {k: x for k, x in nodes[v].items() if k != "pc"}}
+            st = {"t": t, "post": {k: x for k, x in nodes[v].items() if k not in ("pc", "ip")}}
             op = pc_op(pcu, nodes[u], t)
             if op:
                 st["op"] = op
